@@ -11,8 +11,9 @@ Decided statically:
 Not decided: that the select loop always makes progress (liveness over timer/completion orderings); distinct plan targets
 (guaranteed by the single shared plan iterator, a type-level fact).
 """
+from ..inline import inline_view
 from ..mir import AnchorLost
-from ..util import df_of, fn_short, in_set, callers_keys, backward_slice
+from ..util import captured_context, creation_site, dj_of, cmp_truth, df_of, fn_short, in_set, callers_keys, backward_slice
 
 SE = "scylla::policies::speculative_execution::"
 
@@ -34,7 +35,22 @@ def r1(ctx, facts):
     for b, bb in callers:
         df = df_of(b, facts)
         st = df.state_in.get(bb) or {}
-        ok = any(k[0] == "val" and k[1][1][-1:] == ("is_idempotent",) and in_set(v, {1}) for k, v in st.items())
+        def idem(state):
+            return any(k[0] == "val" and k[1][1][-1:] == ("is_idempotent",) and in_set(v, {1}) for k, v in state.items())
+        ok = idem(st)
+        if not ok:
+            # the gate may have been evaluated where the enclosing future was built (`let spec = if self.is_idempotent
+            # { .. } else { None }`) and only its outcome captured: combine with the creator's states, outwards
+            cur, cst = b, st
+            for _ in range(3):
+                ctxs = captured_context(facts, cur, cst)
+                if not ctxs:
+                    break
+                if all(idem(x) for x in ctxs):
+                    ok = True
+                    break
+                site = creation_site(facts, cur)
+                cur, cst = site[0], dj_of(site[0], facts)._join_all([frozenset(x.items()) for x in ctxs])
         r.instance("idempotent-gate:" + fn_short(b.path), ok, "the speculative path must be inside `if self.is_idempotent`; state: " + df.fmt_state(st), b.term_span(bb))
 
 
@@ -81,8 +97,9 @@ def r2_r4(ctx, facts):
         raise AnchorLost("execute: no speculative start (query_runner_generator(true)) found")
     for i, c in enumerate(spec):
         st = df.state_in.get(c.bb) or {}
-        gt = any(k[0] == "bin" and ((k[1] == "Gt" and k[2] == e_ctr and k[3] == ("const", 0) and in_set(v, {1})) or (k[1] == "Ne" and {k[2], k[3]} == {e_ctr, ("const", 0)} and in_set(v, {1}))
-                                      or (k[1] in ("Eq", "Le") and k[2] == e_ctr and k[3] == ("const", 0) and in_set(v, {0}))) for k, v in st.items())
+        Z = ("const", 0)
+        # usize counter: `ctr > 0`, `ctr != 0`, `!(ctr == 0)`, `0 < ctr`, `!(ctr <= 0)` ... all say the same
+        gt = cmp_truth(st, "Gt", e_ctr, Z) == 1 or cmp_truth(st, "Eq", e_ctr, Z) == 0
         r2.instance("speculative-start-needs-budget#%d" % i, gt, "query_runner_generator(true) must be in the `retries_remaining > 0` region; state: " + df.fmt_state(st), c.span)
         dbbs = [d[1] for d in decs]
         r2.instance("speculative-start-is-counted#%d" % i, bool(dbbs) and c.bb not in b.reachable_after(c.bb, removed_nodes=dbbs) and not any(o.bb in b.reachable_after(c.bb, removed_nodes=dbbs) for o in spec if o.bb != c.bb),
@@ -95,24 +112,48 @@ def r2_r4(ctx, facts):
     if not cbi or not emp:
         raise AnchorLost("execute: can_be_ignored / async_tasks.is_empty not found")
     n = 0
-    for bb, j, s in rets:
-        st = df.state_before_stmt(bb, j) or {}
-        ok = any(k == ("call", c.bb) and in_set(v, {0}) for c in cbi for k, v in st.items())
+    Z = ("const", 0)
+    last_err = {l for l in range(len(b.locals)) if b.local_name(l) == "last_error"}
+    exits = [(bb, df.state_before_stmt(bb, j) or {}, b.stmt_span(s), ("stmt", s)) for bb, j, s in rets] + \
+            [(c.bb, df.state_in.get(c.bb) or {}, c.span, ("call", c)) for c in rcalls]
+    for bb, st, span, how in sorted(exits, key=lambda x: x[0]):
         n += 1
-        r4.instance("return-definitive-result#%d" % n, ok, "a result may be returned directly only where can_be_ignored(&r) was false; state: " + df.fmt_state(st), b.stmt_span(s))
-    for c in rcalls:
-        st = df.state_in.get(c.bb) or {}
+        definitive = any(k == ("call", c.bb) and in_set(v, {0}) for c in cbi for k, v in st.items())
         empty = any(k == ("call", e.bb) and in_set(v, {1}) for e in emp for k, v in st.items())
-        nomore = any(k[0] == "bin" and ((k[1] == "Eq" and {k[2], k[3]} == {e_ctr, ("const", 0)} and in_set(v, {1})) or (k[1] in ("Ne", "Gt") and k[2] == e_ctr and in_set(v, {0}))) for k, v in st.items())
-        n += 1
-        r4.instance("return-last-error-only-when-done#%d" % n, empty and nomore and c.is_("Option::<T>::unwrap_or", "Option::<T>::unwrap_or_else"),
-                    "the last-error exit needs async_tasks.is_empty() (%s) and retries_remaining == 0 (%s); state: %s" % (empty, nomore, df.fmt_state(st)), c.span)
+        nomore = cmp_truth(st, "Eq", e_ctr, Z) == 1 or cmp_truth(st, "Gt", e_ctr, Z) == 0
+        if definitive:
+            r4.ok("return-definitive-result#%d" % n, "returned where can_be_ignored(&r) was false", span)
+            continue
+        # otherwise this must be the give-up exit: nothing running, nothing left to start, and what is returned is the
+        # remembered last error (or the empty-plan error)
+        if how[0] == "stmt":
+            ops = [o for o in _rv_ops(how[1][2])]
+        else:
+            ops = list(how[1].args)
+        locs = set()
+        for o in ops:
+            locs |= backward_slice(b, o)[0]
+        from_last = bool(locs & last_err) or (how[0] == "stmt" and how[1][2][0] == "agg" and how[1][2][1][0] == "adt" and how[1][2][1][2] == "Err")
+        r4.instance("return-last-error-only-when-done#%d" % n, empty and nomore and from_last,
+                    "an exit that is not a definitive result needs async_tasks.is_empty() (%s) and retries_remaining == 0 (%s) and must return the remembered last error (%s); state: %s"
+                    % (empty, nomore, from_last, df.fmt_state(st)), span)
     if n == 0:
         raise AnchorLost("execute: no exit found")
 
 
+def _rv_ops(rv):
+    k = rv[0]
+    if k in ("use", "rep"):
+        return [rv[1]]
+    if k == "agg":
+        return list(rv[2])
+    if k == "cast":
+        return [rv[2]]
+    return []
+
+
 def check(ctx):
-    facts = ctx.facts("default")
+    facts = inline_view(ctx.facts("default"))
     for fn in (r1, r2_r4):
         try:
             fn(ctx, facts)
